@@ -7,7 +7,10 @@ Outcome conventions
 """
 import ast
 import time
+import sys
 import z3
+
+sys.setrecursionlimit(60000)
 
 from .values import (V, C, S, E, O, R, T, U, EnumMember, ClassRef, FuncRef, BoundMethod, ModuleRef,
                      Builtin, SuperRef, NONE, TRUE, FALSE, BT, BF, zand, zor, znot, alts, mk_union,
@@ -81,6 +84,7 @@ class State:
         self.ghost = {}
         self.pending = []
         self.wlog = []        # addresses of heap objects written (for merge decisions)
+        self.wfields = {}     # addr -> set of field names written (None = unknown / whole object)
         self.naddr = [0]
         self.depth = 0
 
@@ -95,6 +99,7 @@ class State:
         s.ghost = dict(self.ghost)
         s.pending = []
         s.wlog = list(self.wlog)
+        s.wfields = {a: set(f) for a, f in self.wfields.items()}
         s.naddr = self.naddr
         s.depth = self.depth
         return s
@@ -128,8 +133,10 @@ class State:
     def obj(self, r):
         return self.heap[r.addr]
 
-    def touch(self, obj=None):
+    def touch(self, obj=None, field=None):
         self.wlog.append(obj.addr if obj is not None else 0)
+        if obj is not None:
+            self.wfields.setdefault(obj.addr, set()).add(field)
 
     def mark(self):
         return (len(self.wlog), self.naddr[0], len(self.effects), tuple(sorted((k, id(v) if not isinstance(v, (int, str)) else v) for k, v in self.ghost.items())))
@@ -220,6 +227,7 @@ class Engine:
         self.merge_calls = True
         self.class_cache = {}
         self.loop_invariants = {}
+        self.post_init = {}
         self.paths_limit = 20000
         from . import builtins as B
         self.B = B
